@@ -283,3 +283,48 @@ Proof.
         now rewrite remove_node_label_other.
 Qed.
 End RemoveNode.
+
+(* ---------- set_label / remove_out_edges (repair F12) ---------- *)
+Lemma set_label_label_same x t g : sg_alive g x = true -> sg_label (set_label x t g) x = Some t.
+Proof. intros H. unfold sg_label. cbn [set_label sg_nodes]. apply nth_set_nth_eq. now apply (alive_lt' x g). Qed.
+
+Lemma set_label_label_other x t g y : y <> x -> sg_label (set_label x t g) y = sg_label g y.
+Proof. intros H. unfold sg_label. cbn [set_label sg_nodes]. apply nth_set_nth_neq. lia. Qed.
+
+Lemma set_label_out x t g y : sg_out (set_label x t g) y = sg_out g y.
+Proof. reflexivity. Qed.
+
+Lemma set_label_Inv x t g : Inv g -> sg_alive g x = true -> Inv (set_label x t g).
+Proof.
+  intros [He [Hnd Hf]] Hx. split.
+  - intros a b Hab. destruct (He a b Hab) as [Ha Hb]. unfold sg_alive in *.
+    split.
+    + destruct (Nat.eq_dec a x) as [->|Hne]; [now rewrite set_label_label_same|now rewrite set_label_label_other].
+    + destruct (Nat.eq_dec b x) as [->|Hne]; [now rewrite set_label_label_same|now rewrite set_label_label_other].
+  - unfold free_ok. cbn [set_label sg_free sg_nodes]. split; [exact Hnd|].
+    intros f Hin. destruct (Hf f Hin) as [H1 H2]. split; [now rewrite set_nth_length|].
+    assert (Hne : f <> x) by (intros ->; unfold sg_alive in Hx; now rewrite H2 in Hx).
+    now rewrite set_label_label_other.
+Qed.
+
+Lemma remove_out_edges_label x g y : sg_label (remove_out_edges x g) y = sg_label g y.
+Proof. reflexivity. Qed.
+
+Lemma remove_out_edges_out x g y :
+  sg_out (remove_out_edges x g) y = if Nat.eqb y x then [] else sg_out g y.
+Proof.
+  unfold sg_out. cbn [remove_out_edges sg_edges].
+  induction (sg_edges g) as [|[p q] es IH]; [now destruct (Nat.eqb y x)|].
+  cbn [filter fst]. destruct (Nat.eqb_spec p x) as [->|Hp]; cbn [negb].
+  - rewrite IH. destruct (Nat.eqb_spec x y) as [->|Hxy]; [now rewrite Nat.eqb_refl|reflexivity].
+  - cbn [filter fst]. destruct (Nat.eqb_spec p y) as [->|Hpy].
+    + assert (E : Nat.eqb y x = false) by (apply Nat.eqb_neq; lia). rewrite E in *.
+      cbn [map snd]. now rewrite IH.
+    + exact IH.
+Qed.
+
+Lemma remove_out_edges_Inv x g : Inv g -> Inv (remove_out_edges x g).
+Proof.
+  intros [He Hf]. split; [|exact Hf]. intros a b H. cbn [remove_out_edges sg_edges] in H.
+  apply filter_In in H. now apply He.
+Qed.
